@@ -82,6 +82,26 @@ func init() {
 			return err == nil
 		})
 	})
+	// bundle reader followed by the bundle-signature verifier on whatever signatures section was read
+	register("c10.bundleverify", func(args []string) string {
+		in := ofHex(args[0])
+		sec, _ := strconv.ParseInt(args[1], 10, 64)
+		return measure(func() bool {
+			b, err := bundle.Read(bytes.NewReader(in))
+			if err != nil {
+				return false
+			}
+			if b.Signatures != nil {
+				v, err := signature.NewVerifier(b.Signatures, time.Unix(sec, 0), b.Version)
+				if err == nil {
+					for _, e := range b.Exchanges {
+						v.VerifyExchange(e)
+					}
+				}
+			}
+			return true
+		})
+	})
 	register("c10.sh", func(args []string) string {
 		in := string(ofHex(args[1]))
 		return measure(func() bool {
